@@ -143,5 +143,5 @@ def sem_job(fn, entry, size, props=('C13',), **kw):
 JOBS += [
     sem_job('parquet_parse_page_header', 'h_sem_page_header', 144, props=('C13', 'C14')),
     sem_job('parse_statistics', 'h_sem_statistics', 88),
-    sem_job('parse_schema_element', 'h_sem_schema_element', 80),
+    sem_job('parse_schema_element', 'h_sem_schema_element', 80, props=('C13', 'C17')),   # C17: element accessors return what the file states
 ]
